@@ -372,13 +372,18 @@ def _gen_nonreading(rng, tier):
         tag = 4400000 + i
         size = rng.choice([10, 3000, 40000])  # (fits the write buffer: the application is done, the connection idle)
         by_tag = {str(tag): [["recv_until_end"], ["respond", 200, [(b"x-tag", b"%d" % tag)], b"z" * size]]}
-        how = rng.choice(["pause_before_request", "pause_after_response"])
+        how = rng.choice(["pause_before_request", "pause_after_response", "takes_a_little_then_stalls"])
         req = _req(tag)
         if how == "pause_before_request":
             client = [["pause"], ["feed", req], ["settle"], ["advance", 6 * T], ["settle"]]
+        elif how == "takes_a_little_then_stalls":
+            # ... takes a few bytes while the server is waiting for it to take the rest (the close began at T), and then nothing more
+            size = max(size, 3000)
+            by_tag = {str(tag): [["recv_until_end"], ["respond", 200, [(b"x-tag", b"%d" % tag)], b"z" * size]]}
+            client = [["pause"], ["feed", req], ["settle"], ["advance", 1.5 * T], ["take", rng.choice([1, 100])], ["advance", 8 * T], ["settle"]]
         else:
             client = [["feed", req], ["settle"], ["pause"], ["feed", _req(tag)], ["settle"], ["advance", 6 * T], ["settle"]]
-        yield {"family": "nonreading." + how, "backends": ["asyncio", "trio"], "config": {"keep_alive_timeout": T, "server_names": ["h.example", "ws.example"]},
+        yield {"family": "nonreading." + how, "backends": ["asyncio", "trio"] if how != "takes_a_little_then_stalls" else ["asyncio"], "config": {"keep_alive_timeout": T, "server_names": ["h.example", "ws.example"]},
                "conn": {"write_buffer": 65536},
                "apps": {"default": _app_delay(0, 0), "by_tag": by_tag}, "client": client,
                "truth": {"T": T, "marks": [], "fault": None, "h2": False, "nonreading": True}, "sched": {"seed": rng.randrange(1 << 30)}, "horizon": 400.0}
